@@ -3,7 +3,7 @@ CONSTANTS Threads = {1,2,3,4,5}
           Updaters = {}
           Waiters = {}
           Closers = {}
-          Values = 1..40
+          Values <- TValues
           MaxUpd = 80
           MaxFail = 1000
           InitVals = {0}
